@@ -312,6 +312,40 @@ func C17(c *fw.Ctx) {
 			}
 		}
 	}
+	// built-ins whose arguments contain further calls -- of the enclosing function (recursion through
+	// an argument), of the same built-in, of another built-in -- in either argument position; the
+	// recursive function is run twice in the program
+	{
+		id, num := model.Id, model.Num
+		arrs := [][]float64{{9, 1, 2, 5}, {-7, 4, 3, 6}, {2, 3, 2}, {1}}
+		for _, b := range []string{model.BiMax, model.BiMin, model.BiPow} {
+			for pos := 0; pos < 2; pos++ {
+				for _, arr := range arrs {
+					if !c.Mine() {
+						continue
+					}
+					var el []*model.N
+					for _, v := range arr {
+						el = append(el, lit(v))
+					}
+					rec := model.CallN("best", model.Bin("+", id("i"), num(1)))
+					elem := model.Idx(id("xs"), id("i"))
+					call := model.CallN(b, elem, rec)
+					if pos == 1 {
+						call = model.CallN(b, model.CallN("best", model.Bin("+", id("i"), num(1))), model.Idx(id("xs"), id("i")))
+					}
+					prog := []*model.N{
+						model.Var("xs", model.Arr(el...)),
+						model.Fun("best", []string{"i"}, model.If(model.Bin("==", id("i"), model.Bin("-", model.CallN(model.BiLen, id("xs")), num(1))), model.Block(model.Return(model.Idx(id("xs"), id("i")))), nil), model.Return(call)),
+						model.Print(model.CallN("best", num(0))), model.Print(model.CallN("best", num(0))),
+						model.Print(model.CallN(b, model.CallN(b, lit(arr[0]), num(2)), model.CallN(model.BiAbs, model.CallN(b, num(3), lit(arr[0]))))),
+						model.Print(model.CallN(b, num(2), model.CallN(model.BiRound, num(3.2)))),
+					}
+					judge(c, prog, judgeOpts{SigPrefix: "nested-calls|" + b})
+				}
+			}
+		}
+	}
 	// ঘাত(a, b) must be the very double a ** b is: bases x whole and fractional exponents
 	bases := []float64{10, 2.5, 0.1, 3, 1.5, 7, 0.3, 2, 0.5, 1e10, 1e-10, 123456.789, -10, -2.5, -0.1, 1.0000000001, 0.9999999999, 1e154, 1e-154, 17, 1.1}
 	var exps []float64
